@@ -70,8 +70,14 @@ def harness(prop, cases=None, native_inputs=None, max_paths=4000, name=None, gro
     return deco
 
 
-def loop_spec(func_key, ordinal, inv=None, modifies=(), types=None, at_head=None):
-    _LOOP_SPECS[(func_key, ordinal)] = LoopSpec(inv, modifies, types, at_head=at_head)
+def loop_spec(func_key, ordinal, inv=None, modifies=(), types=None, at_head=None, at_end=None):
+    _LOOP_SPECS[(func_key, ordinal)] = LoopSpec(inv, modifies, types, at_head=at_head, at_end=at_end)
+
+
+def callback(fn):
+    """a Python callable the code under contract may call (uninterpreted callback with ghost log)"""
+    fn._pyvc_callback = True
+    return fn
 
 
 # ---------------------------------------------------------------------------- inputs
